@@ -12,6 +12,10 @@ structure Sys where
   net : List (Nat × Nat × Msg) := []
   /-- ghost history: (voter, term, candidate) for every vote ever recorded -/
   ghost : List (Nat × Nat × Nat) := []
+  /-- ghost: the log of the leader of each term, as of its last step as leader -/
+  canon : Nat → List Entry := fun _ => []
+  /-- ghost history: (term, node, voters) for every election ever won -/
+  elected : List (Nat × Nat × List Nat) := []
 
 inductive Step where
   | timeout (i : Nat)
@@ -43,7 +47,10 @@ def route (c : Config) (dst src : Nat) (out : Option Msg) : List (Nat × Nat × 
   | some m => [(dst, src, m)]
 
 def setNode (s : Sys) (i : Nat) (nd' : Node) (nd : Node) (msgs : List (Nat × Nat × Msg)) : Sys :=
-  { nodes := s.nodes.set i nd', net := s.net ++ msgs, ghost := s.ghost ++ ghostOf i nd nd' }
+  { nodes := s.nodes.set i nd', net := s.net ++ msgs, ghost := s.ghost ++ ghostOf i nd nd',
+    canon := if nd'.role = .leader then (fun t => if t = nd'.term then nd'.log else s.canon t) else s.canon,
+    elected := if nd.role ≠ .leader ∧ nd'.role = .leader then s.elected ++ [(nd'.term, i, nd'.votes)]
+               else s.elected }
 
 def sysStep (c : Config) (s : Sys) : Step → Sys
   | .timeout i =>
@@ -68,6 +75,8 @@ def sysStep (c : Config) (s : Sys) : Step → Sys
     | some nd => setNode s i (propose nd p a).1 nd []
     | none => s
   | .replicate i j =>
+    -- `send_heartbeats` iterates over the peers only: a node never sends to itself
+    if j = i then s else
     match s.nodes[i]? with
     | some nd =>
       match appendEntriesFor nd j with
